@@ -68,6 +68,7 @@ class Block:
         self.proofs = []        # (dict(loop, at), text)
         self.substs = []
         self.outlines = []
+        self.add_params = []
 
 
 def parse_template(text):
@@ -155,6 +156,8 @@ def parse_template(text):
                     elif key == 'outline':
                         om = dict(shlex.split(kv)[0].split('=', 1) if False else kv.split('=', 1) for kv in shlex.split(d[len('outline'):]))
                         blk.outlines.append(om)
+                    elif key == 'add_param':
+                        blk.add_params.append(d[len('add_param'):].strip())
                     elif key == 'subst':
                         frm, to = d[len('subst'):].split('=>', 1)
                         blk.substs.append((frm.strip(), to.strip()))
@@ -277,17 +280,50 @@ def _body_rewrites(src, ed, lo, hi, loops, blk, log):
     if blk.args.get('desugar_try'):
         rewrite_try(src, ed, lo, hi, log)
     text = src.text
+    from .rustlex import lex as _lex
     for frm, to in blk.substs:
-        a0 = ed.start
-        b0 = ed.end
-        a = text.find(frm, a0, b0)
-        if a < 0:
-            log.append(f'R-subst (not applied, text absent) `{frm}`')
+        # token-sequence match: insensitive to whitespace / line breaks / comments in the source
+        pat = [t.text for t in _lex(frm, strict=False)[0]]
+        if not pat:
             continue
-        while a >= 0:
-            ed.replace(a, a + len(frm), to, 'R-subst')
-            log.append(f'R-subst {src.rel}:{src.line_of(a)} `{frm}` => `{to}`')
-            a = text.find(frm, a + len(frm), b0)
+        sig = src.sig
+        first = next((k for k, t in enumerate(sig) if t.start >= ed.start), len(sig))
+        last = next((k for k, t in enumerate(sig) if t.end > ed.end), len(sig))
+        k = first
+        hits = 0
+        while k + len(pat) <= last:
+            if all(sig[k + j].text == pat[j] for j in range(len(pat))):
+                a, b = sig[k].start, sig[k + len(pat) - 1].end
+                ed.replace(a, b, to, 'R-subst')
+                log.append(f'R-subst {src.rel}:{src.line_of(a)} `{frm}` => `{to}`')
+                hits += 1
+                k += len(pat)
+            else:
+                k += 1
+        if not hits:
+            log.append(f'R-subst (not applied, text absent) `{frm}`')
+    sig = src.sig
+    for pname in blk.args.get('drop_let', '').split(',') if blk.args.get('drop_let') else []:
+        done = False
+        i = lo
+        while i < hi:
+            t = sig[i]
+            if t.kind == 'id' and t.text == 'let':
+                j = i + 1
+                if sig[j].text == 'mut':
+                    j += 1
+                if sig[j].text == pname:
+                    while not (sig[j].kind == 'p' and sig[j].text == ';'):
+                        if sig[j].kind == 'p' and sig[j].text in '([{':
+                            j = sig[j].mate
+                        j += 1
+                    ed.replace(t.start, sig[j].end, '', 'R6')
+                    log.append(f'R6 {src.rel}:{src.line_of(t.start)} `let {pname} = ...;` dropped (becomes a parameter): ' + src.text[t.start:sig[j].end].replace('\n', ' ')[:100])
+                    done = True
+                    break
+            i += 1
+        if not done:
+            raise LiftError(f'{src.rel}: drop_let: no `let {pname}` in lifted range')
 
 
 def _apply_outlines(src, ed, lo, hi, blk, fname, log, canary):
@@ -416,6 +452,24 @@ def lift_block(blk, log, meta, canary=False):
     if kind == 'item':
         ed = Edits(src, sig[fi.fn_idx].start, sig[fi.close_idx].end)
         _sig_rewrite(src, fi, ed, a.get('ret', 'r'), name if (canary or 'as' in a) else None, log)
+        if blk.add_params:
+            # first `(` after the fn name (and generics) that opens the parameter list
+            j = fi.fn_idx + 2
+            while not (sig[j].kind == 'p' and sig[j].text == '('):
+                if sig[j].kind == 'p' and sig[j].text == '<':
+                    depth = 0
+                    while True:
+                        if sig[j].text == '<':
+                            depth += 1
+                        elif sig[j].text == '>' and sig[j - 1].text != '-':
+                            depth -= 1
+                            if depth == 0:
+                                break
+                        j += 1
+                j += 1
+            sep = '' if sig[j + 1].text == ')' else ', '
+            ed.insert(sig[j].end, ', '.join(blk.add_params) + sep, 'R6')
+            log.append(f'R6 {src.rel}:{src.line_of(sig[j].start)} parameter(s) added: ' + ', '.join(blk.add_params))
         lo, hi = fi.open_idx + 1, fi.close_idx
     elif kind in ('tail', 'loop'):
         if kind == 'tail':
